@@ -43,6 +43,7 @@ P7 == Px("fc00:2::/64", 6, V6(252, 0, 0, 2), 64)
 C20 == "65000:20"
 C100 == "65000:100"
 LC == "65000:1:2"
+LC2 == "64512:100:200"
 LPMAX == "4294967295"
 
 Adv(p, lp, comms, lcomms) == [p |-> p, lp |-> lp, comms |-> comms, lcomms |-> lcomms]
@@ -51,7 +52,9 @@ AdvCat ==
   << Adv(P1, "0", <<>>, <<>>),           Adv(P1, "0", <<C20>>, <<>>),      Adv(P1, "0", <<C100>>, <<LC>>),
      Adv(P2, "100", <<C20>>, <<>>),      Adv(P3, LPMAX, <<>>, <<LC>>),     Adv(P4, "100", <<>>, <<>>),
      Adv(P5, "0", <<>>, <<>>),           Adv(P5, "0", <<C20>>, <<>>),      Adv(P6, "100", <<C100>>, <<LC>>),
-     Adv(P7, "200", <<C20, C100>>, <<>>) >>
+     Adv(P7, "200", <<C20, C100>>, <<>>),
+     (* the same prefix again with ONLY a large community (P1: none / standard / both / large-only; P5: none / standard / large-only) *)
+     Adv(P1, "0", <<>>, <<LC2>>),        Adv(P5, "0", <<>>, <<LC>>) >>
 NAdv == Len(AdvCat)
 AdvSets == {A \in SUBSET (1..NAdv) : Cardinality(A) <= 3}
 
@@ -119,8 +122,73 @@ BucketInputs(t) ==
   IF Len(t) = 1 THEN {[ns |-> t, as |-> <<A>>] : A \in SingleAdvSets}
   ELSE Sample(t, IF Len(t) = 2 THEN Sizes.pair ELSE Sizes.triple)
 
-Init == inp \in {[bucket |-> TRUE, ns |-> t, as |-> <<>>, pool |-> BucketInputs(t)] : t \in Buckets}
-Next == inp.bucket /\ inp' \in {[bucket |-> FALSE, ns |-> i.ns, as |-> i.as, pool |-> {}] : i \in inp.pool}
+(* ---- histories on one session manager: a fixed prefix (two sessions created, each with an accepted Set) followed *)
+(* by Depth operations out of an alphabet: accepted Sets, Sets that must be REFUSED (more than 63 communities on a    *)
+(* later advertisement; one prefix with two local preferences - FRR mode only, FRR-K8s mode accepts that), Sets on   *)
+(* the other session, SyncBFDProfiles / SyncExtraInfo (regeneration without a change), Close, a third NewSession.   *)
+(* The harness observes after EVERY operation; the expected state (view) after each operation is the last ACCEPTED *)
+(* Set of every open session: a refused Set changes nothing.                                                       *)
+HAdvCat == AdvCat \o <<Adv(P4, "200", <<>>, <<>>), Adv(P4, "100", [i \in 1..64 |-> "65001:" \o ToString(i)], <<>>)>>
+IdxLp2 == NAdv + 1
+IdxBad == NAdv + 2
+HPre == <<1, 2, 4, 5, 6, 7, IdxLp2>>          \* everything a history ever mentions, for "every other prefix"
+HL1 == <<1, 4>>
+HL2 == <<5, 2>>
+HL3 == <<7>>
+HOp(op, s, advs, refuse) == [op |-> op, s |-> s, advs |-> advs, refuse |-> refuse, look |-> 0]
+HPrefix == <<HOp("new", 1, <<>>, ""), HOp("set", 1, HL1, ""), HOp("new", 2, <<>>, ""), HOp("set", 2, HL3, "")>>
+HAlphabet ==
+  << HOp("set", 1, HL2, ""), HOp("set", 1, <<>>, ""), HOp("set", 2, HL1, ""),
+     HOp("set", 1, <<6, IdxBad>>, "63"), HOp("set", 1, <<7, 6, IdxLp2>>, "lp"), HOp("set", 2, <<6, IdxBad>>, "63"),
+     HOp("syncbfd", 1, <<>>, ""), HOp("syncextra", 1, <<>>, ""), HOp("close", 1, <<>>, ""), HOp("close", 2, <<>>, ""),
+     HOp("new", 3, <<>>, "") >>
+HDepth == 3
+HVariants == <<(<<1, 2, 5>>), (<<3, 6, 4>>), (<<9, 1, 3>>)>>
+HState0 == [j \in 1..3 |-> [live |-> FALSE, advs |-> <<>>]]
+HEnabled(st, a) ==
+  IF a.op \in {"set", "close"} THEN st[a.s].live ELSE IF a.op = "new" THEN ~st[a.s].live ELSE TRUE
+HApply(st, a) ==
+  IF a.op = "set" /\ a.refuse = "" THEN [st EXCEPT ![a.s].advs = a.advs]
+  ELSE IF a.op = "close" THEN [st EXCEPT ![a.s] = [live |-> FALSE, advs |-> <<>>]]
+  ELSE IF a.op = "new" THEN [st EXCEPT ![a.s] = [live |-> TRUE, advs |-> <<>>]]
+  ELSE st
+RECURSIVE HStates(_, _, _)
+(* the states after each operation (operations that are not enabled leave the state alone; see HValid) *)
+HStates(ops, i, st) ==
+  IF i > Len(ops) THEN <<>> ELSE <<HApply(st, ops[i])>> \o HStates(ops, i + 1, HApply(st, ops[i]))
+RECURSIVE HAllEnabled(_, _, _)
+HAllEnabled(ops, i, st) ==
+  i > Len(ops) \/ (HEnabled(st, ops[i]) /\ HAllEnabled(ops, i + 1, HApply(st, ops[i])))
+HOpsOf(f) == HPrefix \o [i \in 1..Len(f) |-> HAlphabet[f[i]]]
+HValid(f) == HAllEnabled(HOpsOf(f), 1, HState0)
+HBuckets ==
+  LET vs == IF Tier = "thorough" THEN {1, 2, 3} ELSE RandomSubset(1, {1, 2, 3}) IN
+  {[bucket |-> TRUE, kind |-> "hist", ns |-> HVariants[v], as |-> <<a>>,
+    pool |-> {f \in [1..HDepth -> 1..Len(HAlphabet)] : f[1] = a /\ HValid(f)}] : v \in vs, a \in 1..Len(HAlphabet)}
+
+Init == inp \in {[bucket |-> TRUE, kind |-> "set", ns |-> t, as |-> <<>>, pool |-> BucketInputs(t)] : t \in Buckets} \cup HBuckets
+Next ==
+  /\ inp.bucket
+  /\ inp' \in IF inp.kind = "set" THEN {[bucket |-> FALSE, kind |-> "set", ns |-> i.ns, as |-> i.as, pool |-> {}] : i \in inp.pool}
+              ELSE {[bucket |-> FALSE, kind |-> "hist", ns |-> inp.ns, as |-> f, pool |-> {}] : f \in inp.pool}
+
+(* a history input *)
+HSess(n) ==
+  LET c == NbrCat[n] IN
+  [k |-> c.k, vrf |-> c.vrf, myasn |-> c.myasn, routerid |-> c.routerid, afam |-> c.afam, addr |-> c.addr, iface |-> c.iface,
+   asn |-> c.asn, dyn |-> c.dyn, port |-> c.port, hold |-> c.hold, keepalive |-> c.keepalive, connect |-> c.connect,
+   pw |-> c.pw, pwref |-> c.pwref, src |-> c.src, multihop |-> c.multihop, bfd |-> c.bfd, gr |-> c.gr,
+   disablemp |-> c.disablemp, ghost |-> FALSE, advs |-> HAdvCat, pre |-> <<>>]
+HSessions == [j \in 1..3 |-> HSess(inp.ns[j])]
+HOps == LET ops == HOpsOf(inp.as) IN [i \in DOMAIN ops |-> [ops[i] EXCEPT !.look = i]]
+HViews ==
+  LET q == HStates(HOpsOf(inp.as), 1, HState0) IN
+  [i \in DOMAIN q |-> [j \in 1..3 |-> [live |-> q[i][j].live, advs |-> q[i][j].advs, pre |-> HPre]]]
+(* the sessions the judge is shown for a view *)
+HViewSessions(view) ==
+  [j \in 1..3 |-> [HSessions[j] EXCEPT !.ghost = ~view[j].live,
+                                        !.advs = [i \in DOMAIN view[j].advs |-> HAdvCat[view[j].advs[i]]],
+                                        !.pre = [i \in DOMAIN view[j].pre |-> HAdvCat[view[j].pre[i]]]]]
 
 K == Len(inp.ns)
 (* the history variant: a session that does not belong to the set is created, advertises, and is closed again *)
@@ -130,7 +198,7 @@ Sessions ==
      IF i <= K THEN Sess(inp.ns[i], inp.as[i], IF i = 1 THEN {2, 5, 9, 10} ELSE {}, FALSE)
      ELSE Sess(GhostN, {1, 4, 7}, {}, TRUE)]
 
-Op(op, s, advs) == [op |-> op, s |-> s, advs |-> advs]
+Op(op, s, advs) == [op |-> op, s |-> s, advs |-> advs, refuse |-> "", look |-> 0]
 Fwd(i) == [j \in 1..Len(Sessions[i].advs) |-> j]
 Rev(i) == [j \in 1..Len(Sessions[i].advs) |-> Len(Sessions[i].advs) + 1 - j]
 RECURSIVE Cat(_, _)
@@ -157,6 +225,9 @@ PwCases ==
 
 Emit ==
   IF inp.bucket THEN inp.ns # <<1>> \/ PrintT(ToJson([pwcases |-> AnySeq(PwCases)]))
+  ELSE IF inp.kind = "hist"
+  THEN PrintT(ToJson([node |-> "node-a", ns |-> "metallb-system", sessions |-> HSessions, orders |-> <<HOps>>, views |-> HViews,
+                      frronly |-> \E i \in DOMAIN HOps : HOps[i].refuse = "lp"]))
   ELSE PrintT(ToJson([node |-> "node-a", ns |-> "metallb-system", sessions |-> Sessions, orders |-> Orders]))
 
 ----------------------------------------------------------------------------
@@ -280,13 +351,15 @@ PwChoice(c) ==
 DesignPw == \A c \in PwCases : PwFails(c, PwChoice(c).password, PwChoice(c).secret) = {}
 ASSUME DesignPw
 
-LiveD == {i \in DOMAIN Sessions : ~Sessions[i].ghost}
-Design14 == inp.bucket \/ Fails14(Sessions, LiveD, Gen(Sessions, LiveD)) = {}
+(* the sessions role A looks at: the input's, or for a history those of its final view *)
+DSessions == IF inp.kind = "hist" THEN HViewSessions(HViews[Len(HViews)]) ELSE Sessions
+LiveD == {i \in DOMAIN DSessions : ~DSessions[i].ghost}
+Design14 == inp.bucket \/ Fails14(DSessions, LiveD, Gen(DSessions, LiveD)) = {}
 Design15 ==
   inp.bucket \/
-  LET cr == GenCR(Sessions, LiveD, "node-a") IN
-  /\ Fails15(Sessions, LiveD, cr, "node-a") = {}
-  /\ Agreement(Sessions, LiveD, Gen(Sessions, LiveD), cr) = {}
+  LET cr == GenCR(DSessions, LiveD, "node-a") IN
+  /\ Fails15(DSessions, LiveD, cr, "node-a") = {}
+  /\ Agreement(DSessions, LiveD, Gen(DSessions, LiveD), cr) = {}
 
 ----------------------------------------------------------------------------
 (* Lemmas: the semantics tells the designed program from broken variants (checked once, at start-up) *)
